@@ -312,6 +312,40 @@ func (e *Eng) evalSpec(st *State, x *SExpr, env map[string]*Val, old map[string]
 				}
 			}
 		}
+		if b.Go != nil {
+			// promoted field through embedded structs / pointers
+			if obj, index, _ := types.LookupFieldOrMethod(b.Go, true, e.pkg.Types, x.Name); obj != nil && len(index) > 1 {
+				if _, isVar := obj.(*types.Var); isVar {
+					cur, curT := b, b.Go
+					for _, i := range index {
+						var stt *types.Struct
+						isPtr := false
+						if p, ok := curT.Underlying().(*types.Pointer); ok {
+							isPtr = true
+							stt, _ = p.Elem().Underlying().(*types.Struct)
+						} else {
+							stt, _ = curT.Underlying().(*types.Struct)
+						}
+						if stt == nil {
+							break
+						}
+						f := stt.Field(i)
+						if isPtr {
+							cur = e.heapRead(st, curT, f.Name(), cur.T, f.Type())
+						} else if fv := cur.field(f.Name()); fv != nil {
+							cur = fv
+						} else {
+							break
+						}
+						if cur.Go == nil {
+							cur.Go = f.Type()
+						}
+						curT = f.Type()
+					}
+					return cur
+				}
+			}
+		}
 		panic("spec: selector " + x.Name + " on " + b.Sort)
 	}
 	panic("spec: unsupported " + x.String())
